@@ -647,7 +647,10 @@ impl<'a> Run<'a> {
             // second call leaves the old name's problems behind for good (window stays open)
             if ev.coll == crate::config::ADF_COLL && ev.op == "update_many" && ev.outcome != "fault-before" {
                 if let Some(c) = actor_client {
-                    self.windows.retain(|(wc, _, _)| *wc != c);
+                    // exactly the window whose old name this call re-owns: an earlier rename of
+                    // the same client whose second call never ran stays open for good
+                    let moved = doc_str(&ev.filter, "username").unwrap_or_default();
+                    self.windows.retain(|(wc, old, _)| !(*wc == c && *old == moved));
                 }
             }
             // O2: no foreign write
@@ -661,7 +664,16 @@ impl<'a> Run<'a> {
                         let uname = t.before.as_ref().and_then(|d| doc_str(d, "username")).unwrap_or_default();
                         let fuser = doc_str(&ev.filter, "username").unwrap_or_default();
                         let stale = is_bg && self.w.cont_gate.get(&ev.gate).and_then(|tid| self.w.tasks.get(tid)).map(|t| t.doc_id != Some(t_id(t, &ev))).unwrap_or(false);
-                        let key = if stale {
+                        // the pinned tree's filter is {name, username, code}: a late write can
+                        // still land on another client's document if that client obtained the
+                        // account name and filed a byte-identical problem under the same name
+                        let full_filter_matches = ["name", "username", "code"].iter().all(|k| {
+                            let f = doc_str(&ev.filter, k);
+                            f.is_some() && f == t.before.as_ref().and_then(|d| doc_str(d, k))
+                        });
+                        let key = if stale && full_filter_matches {
+                            "O2/adf.rs:continuation-update_one/identical-problem-refiled-under-reused-account-name".to_string()
+                        } else if stale {
                             "O2/adf.rs:continuation-update_one/stale-task-after-name-reuse".to_string()
                         } else if self.tainted_names.contains(&uname) || self.tainted_names.contains(&fuser) {
                             "O2/user.rs:update_user/name-reuse-inside-rename-window".to_string()
@@ -803,7 +815,6 @@ impl<'a> Run<'a> {
                         }
                     }
                     self.cl[c].acct = Some(name.clone());
-                    self.windows.retain(|(wc, _, _)| *wc != c);
                 }
             }
             Rq::DeleteAccount => {
@@ -962,7 +973,10 @@ impl<'a> Run<'a> {
                         let v = Violation::new("O4-stored-credential", "not-a-salted-hash", format!("user document {id} stores password {h:?}"));
                         self.viol(v);
                     }
-                    if self.plaintexts.iter().any(|p| h.contains(p.as_str())) {
+                    // a short password can occur inside a random base64 string by chance (seen once
+                    // in 2*10^5 hashes): substring test for long plaintexts only, short ones must
+                    // not be the stored string or one of its `$`-separated fields
+                    if self.plaintexts.iter().any(|p| if p.len() >= 12 { h.contains(p.as_str()) } else { h == p || h.split('$').any(|f| f == p) }) {
                         let v = Violation::new("O4-stored-credential", "contains-plaintext", format!("user document {id} stores {h:?}"));
                         self.viol(v);
                     }
